@@ -838,9 +838,238 @@ def run_boundaries(ctx, case):
     ctx.sig(["boundary", sorted(tags), W, N, factor, case["test_mode"], case["deps"] > 0], nontrivial=len(requests) > 0)
 
 
+# ------------------------------------------------------------------------------------------------------------------------------------
+# worker_step_end: the real Worker.receiveMsg_WakeupMessage -> send_samples / drive() against a scripted load generator thread
+# ------------------------------------------------------------------------------------------------------------------------------------
+def gen_step_end(ctx):
+    rng = ctx.rng
+    for i in range(ctx.budget):
+        n = rng.choice([1, 1, 2, 3, 5, 8, 13])
+        shape = ["long-before", "before-drain", "window", "window-all", "opcode", "trickle", "early-finish"][i % 7] if i < 14 else \
+            rng.choice(["long-before", "before-drain", "window", "window", "window-all", "opcode", "opcode", "trickle", "early-finish"])
+        wakes = []
+        nw = rng.choice([1, 1, 2, 3, 4])
+        for k in range(nw):
+            last = k == nw - 1
+            wk = {"before": 0, "fin_before": False, "window": 0, "fin_window": False, "k": None, "kc": 0, "fin_k": False}
+            if shape == "long-before":
+                wk.update(before=n if k == 0 else 0, fin_before=k == 0)
+            elif shape == "before-drain":
+                wk.update(before=rng.randint(0, n), fin_before=last)
+            elif shape == "window":
+                wk.update(before=rng.randint(0, n), window=rng.randint(1, n), fin_window=last or rng.random() < 0.3)
+            elif shape == "window-all":
+                wk.update(window=n if last else 0, fin_window=last)
+            elif shape == "opcode":
+                wk.update(before=rng.randint(0, n), k=rng.randint(0, 260), kc=rng.randint(1, n), fin_k=rng.random() < 0.7)
+            elif shape == "trickle":
+                wk.update(before=rng.randint(0, 2), window=rng.randint(0, 2), fin_window=last and rng.random() < 0.5,
+                          k=rng.choice([None, rng.randint(0, 260)]), kc=1, fin_k=rng.random() < 0.3)
+            else:  # the thread is told to finish early (cancelled / completed by another client): the rest is never added
+                wk.update(before=rng.randint(0, max(0, n - 1)), window=rng.randint(0, 1), fin_window=rng.random() < 0.5, fin_before=rng.random() < 0.3)
+            wakes.append(wk)
+        yield {"n": n, "shape": shape, "wakes": wakes, "test_mode": rng.random() < 0.5, "deps": rng.choice([0, 0, 1]), "worker": rng.choice([0, 1, 3])}
+
+
+def run_step_end(ctx, case):
+    import logging
+    import pickle
+    import threading
+    import types as _t
+
+    from esrally import metrics
+    from esrally.driver import driver
+    from esrally.track import track
+    from harness import preempt, sim_race
+
+    real = lambda f: getattr(f, "__wrapped__", f)
+    sampler_add = real(driver.Sampler.add)
+    W = driver.Worker
+    log_ = logging.getLogger("esrally.driver.driver")
+    cfg = sim_race.make_config({"test_mode": case["test_mode"]})
+    task = track.Task("stepend", track.Operation("stepend", "sim"), clients=1)
+    wid = case["worker"]
+    evlog = []  # what happened, in the order in which it happened
+
+    class Busy:  # harness code is not a place where the 'thread' may be scheduled: it would only blur the order of the log
+        def __init__(self):
+            self.n = 0
+
+        def locked(self):
+            return self.n > 0
+
+    busy = Busy()
+
+    def atomic(f):
+        def g(*a, **k):
+            busy.n += 1
+            try:
+                return f(*a, **k)
+            finally:
+                busy.n -= 1
+        return g
+
+    the_sampler = driver.Sampler(start_timestamp=0.0, buffer_size=1 << 20)  # the load generator keeps its own reference, as AsyncIoAdapter does
+    th = _t.SimpleNamespace(next=1, finished=False, added=[])
+    key = lambda x: int(round(x.relative_time * 1024))
+
+    def thread(c, fin):
+        """the load generator thread gets the processor: adds its next c samples (if it has any left) and possibly finishes"""
+        if th.finished:
+            return
+        for _ in range(c):
+            if th.next > case["n"]:
+                break
+            sid = th.next
+            th.next += 1
+            t = sid / 1024.0
+            dt = [{"dependent_timing": {"operation": f"sub{k}", "operation-type": "search", "absolute_time": 1000.0 + t, "request_start": t, "service_time": 0.0625}}
+                  for k in range(case["deps"])] or None
+            sampler_add(the_sampler, task, wid, metrics.SampleType.Normal, {}, 1000.0 + t, t, 0.5, 0.25, 0.125, None, 1, "ops", 0.25, None, dt)
+            th.added.append(sid)
+            evlog.append(("add", sid))
+        if fin:
+            th.finished = True
+            evlog.append(("finish",))
+
+    cur = {"wk": None}
+
+    class Future:  # stand-in for concurrent.futures.Future: its calls are the places where the thread is scheduled
+        @atomic
+        def done(self):
+            wk = cur["wk"]
+            if wk is not None and (wk["window"] or wk["fin_window"]) and not wk.get("_used"):
+                wk["_used"] = True
+                thread(wk["window"], wk["fin_window"])
+            evlog.append(("done?", th.finished))
+            return th.finished
+
+        @atomic
+        def result(self, timeout=None):
+            thread(case["n"], True)  # blocks until the thread has finished
+            evlog.append(("result",))
+            return None
+
+        @atomic
+        def exception(self, timeout=None):
+            return None
+
+        @atomic
+        def running(self):
+            return not th.finished
+
+        @atomic
+        def cancelled(self):
+            return False
+
+    @atomic
+    def send(dst, m):
+        if isinstance(m, driver.UpdateSamples):
+            m = pickle.loads(pickle.dumps(m))
+            evlog.append(("update", [key(x) for x in m.samples], m.client_id))
+        elif isinstance(m, driver.JoinPointReached):
+            evlog.append(("join", m.worker_id))
+        else:
+            evlog.append(("other", type(m).__name__))
+
+    allocs = driver.ClientAllocations()
+    allocs.add(0, [driver.JoinPoint(0), driver.TaskAllocation(task, 0, 0, 1), driver.JoinPoint(1)])
+    ws = object.__new__(W)
+    ws.__dict__.update(sampler=the_sampler, worker_id=wid, driver_actor="driver", send=send, logger=log_, start_driving=False,
+                       cancel=threading.Event(), complete=threading.Event(), executor_future=Future(), config=cfg, track=None,
+                       wakeup_interval=0.5 if case["test_mode"] else W.WAKEUP_INTERVAL_SECONDS, wakeupAfter=atomic(lambda d, payload=None: evlog.append(("rearm",))),
+                       client_allocations=allocs, current_task_index=1, next_task_index=2, sample_queue_size=1 << 20, client_contexts={}, on_error="abort",
+                       pool=None)
+    is_handler = lambda code: code.co_name == "receiveMsg_WakeupMessage" and code.co_filename.endswith("driver.py")
+    wakes = [dict(w_) for w_ in case["wakes"]]
+    # after the scripted wake-ups the thread finishes long before the next one (a worker keeps waking up until its executor is done)
+    wakes += [{"before": 0, "fin_before": True, "window": 0, "fin_window": False, "k": None, "kc": 0, "fin_k": False}] * 2
+    fired = 0
+    for wk in wakes:
+        if any(e[0] == "join" for e in evlog):
+            break
+        thread(wk["before"], wk["fin_before"])
+        cur["wk"] = wk
+        evlog.append(("start",))
+        try:
+            if wk["k"] is not None:
+                with preempt.Preemptor(is_handler, lambda: thread(wk["kc"], wk["fin_k"]), wk["k"], locks=lambda: [the_sampler.q.mutex, busy]) as p:
+                    W.receiveMsg_WakeupMessage(ws, _t.SimpleNamespace(payload=None), "self")
+                fired += p.fired is not None
+            else:
+                W.receiveMsg_WakeupMessage(ws, _t.SimpleNamespace(payload=None), "self")
+        except Exception as e:  # noqa: judged below (no join point message)
+            evlog.append(("other", type(e).__name__))
+        cur["wk"] = None
+    left = [key(x) for x in the_sampler.samples]
+
+    # ---------------- projection to the model's steps ----------------
+    events, buf, state = [], [], "outside"
+    for e in evlog:
+        if e[0] == "start":
+            state = "awaiting-drain"
+        elif e[0] in ("add", "finish"):
+            (buf if state == "awaiting-drain" else events).append(e[0] if e[0] == "finish" else ("add", e[1]))
+        elif e[0] == "update" and state == "awaiting-drain":
+            cut = max([i + 1 for i, b in enumerate(buf) if b != "finish" and b[1] in e[1]], default=0)
+            events += buf[:cut] + ["wakeDrain"] + buf[cut:]
+            buf, state = [], "drained"
+        elif e[0] == "done?":
+            if state == "awaiting-drain":
+                events += ["wakeDrain"] + buf
+                buf, state = [], "drained"
+            events.append("checkDone")
+            state = "driving" if e[1] else "outside"
+        elif e[0] == "join":
+            if state == "awaiting-drain":  # a handler that reports without looking at the future
+                events += ["wakeDrain"] + buf + ["checkDone"]
+                buf = []
+            events += ["driveWait", "driveDrain", "driveDrop", "sendJoin"]
+            state = "outside"
+    events += buf
+    names = [x if isinstance(x, str) else x[0] for x in events]
+    sent = [e[1] if e[0] == "update" else "join" for e in evlog if e[0] in ("update", "join")]
+    m = ctx.model("shipjoin", "run", {"jd": True, "todo": list(range(1, case["n"] + 1)), "events": names})
+    tags = m.get("tags", [])
+    if "err" in m:
+        ctx.diff("the projected steps of the wake-up handler / drive() / thread are not a run of the model", m["err"], {"events": names, "log": evlog[:40]})
+    else:
+        r = m["r"]
+        if [r["sent"], r["q"], r["added"]] != [sent, left, th.added]:
+            ctx.diff("messages sent by the worker, samples left in the queue, samples added", [r["sent"], r["q"], r["added"]], [sent, left, th.added])
+
+    # ---------------- direct oracle: from what the scripted thread did only ----------------
+    cls = "stepend"
+    joins = [i for i, x in enumerate(sent) if x == "join"]
+    if len(joins) != 1:
+        ctx.fail(cls + ":joinpoint-not-reported-once", f"the load generator finished and the worker woke up {len(wakes)} times; JoinPointReached messages sent", 1, len(joins))
+    before = [sid for x in sent[:joins[0] if joins else len(sent)] if x != "join" for sid in x]
+    import collections
+    cnt = collections.Counter(before)
+    missing = [sid for sid in th.added if cnt[sid] == 0]
+    twice = sorted(sid for sid, c in cnt.items() if c > 1)
+    unknown = sorted(sid for sid in cnt if sid not in th.added)
+    if missing:
+        ctx.fail(cls + ":samples-not-shipped-before-joinpoint",
+                 f"the load generator added samples {th.added} ({case['shape']}); samples {missing} are in no UpdateSamples message sent before JoinPointReached "
+                 f"(left in the queue afterwards: {left})", th.added, before)
+    if twice or unknown:
+        ctx.fail(cls + ":shipped-twice-or-unknown", "samples shipped twice / never added", [], {"twice": twice, "unknown": unknown})
+    if joins and any(x != "join" for x in sent[joins[0] + 1:]):
+        ctx.fail(cls + ":shipped-after-joinpoint", "UpdateSamples sent after JoinPointReached", [], sent[joins[0] + 1:])
+    wrong_sender = [e for e in evlog if (e[0] == "update" and e[2] != wid) or (e[0] == "join" and e[1] != wid)]
+    if wrong_sender:
+        ctx.fail(cls + ":wrong-worker-id", "messages carry another worker id", wid, wrong_sender[:3])
+    ctx.count("stepend-samples", len(th.added))
+    ctx.count("stepend-opcode-points-fired", fired)
+    ctx.count("stepend:" + case["shape"])
+    ctx.sig(["stepend", sorted(t for t in tags if t != "step"), case["shape"], min(len(th.added), 2), case["deps"] > 0], nontrivial=len(th.added) > 0)
+
+
 STREAMS = [
     Stream("pipeline_on_simulated_races", gen, run, quick=320, thorough=100000, shards=16),
     Stream("pipeline_direct_sizes", gen_direct, run_direct, quick=160, thorough=12000, shards=16),
     Stream("driver_periodic_tick", gen_ticks, run_ticks, quick=200, thorough=20000, shards=4),
     Stream("driver_step_boundaries", gen_boundaries, run_boundaries, quick=320, thorough=30000, shards=8),
+    Stream("worker_step_end", gen_step_end, run_step_end, quick=400, thorough=40000, shards=8),
 ]
